@@ -251,7 +251,7 @@ def cost_jobs(tier):
     jobs = [Job("cost", "release", "cost", {"exps": q(tier, "4,8,12,16", "4,6,8,10,12,14,16,18,20"), "reps": q(tier, 40, 120), "nshards": NPROC}, shards=NPROC, restartable=False, timeout=1800)]
     for kind in ("pq", "dpq"):
         for n in (256, 65536):
-            for op in ("none", "change", "removepush", "poppush", "peeks"):
+            for op in ("none", "change", "removepush", "poppush", "peeks", "absent"):
                 jobs.append(Job("cg-%s-%d-%s" % (kind, n, op), "release", "costprobe", {"kinds": kind, "n": n, "op": op, "ops": 2000}, shards=1, wrap="cachegrind", restartable=False, timeout=900))
     return jobs
 
@@ -264,7 +264,7 @@ def cost_post(lines, tier):
             ir[(a["kinds"], int(a["n"]), a["op"])] = l["irefs"]
     viols, info, problems = [], {}, []
     for kind in ("pq", "dpq"):
-        for op in ("change", "removepush", "poppush", "peeks"):
+        for op in ("change", "removepush", "poppush", "peeks", "absent"):
             try:
                 small = (ir[(kind, 256, op)] - ir[(kind, 256, "none")]) / 2000.0
                 large = (ir[(kind, 65536, op)] - ir[(kind, 65536, "none")]) / 2000.0
@@ -273,7 +273,7 @@ def cost_post(lines, tier):
                 continue
             ratio = large / max(small, 1.0)
             info["%s/%s" % (kind, op)] = {"instr_per_op_n256": round(small, 1), "instr_per_op_n65536": round(large, 1), "ratio": round(ratio, 2)}
-            limit = 4.0 if op != "peeks" else 2.0
+            limit = 4.0 if op not in ("peeks", "absent") else 2.0
             if ratio > limit:
                 viols.append({
                     "t": "viol", "props": ["C05"], "sig": "cost/%s/%s/instructions-scaling" % (kind, op), "job": "cachegrind", "build": "release+cachegrind",
